@@ -43,8 +43,8 @@ def run(tier, seed):
     v.add_report(rep, "M2:MC_C02", traces=len(r["exports"]) - 1)
 
     # M3: random patterns beyond the bounded alphabet/length
-    n = 1500 if tier == "quick" else 12000
-    chunks = 1 if tier == "quick" else 4
+    n = 6000 if tier == "quick" else 40000
+    chunks = 1 if tier == "quick" else 8
     for c in range(chunks):
         tr = os.path.join(wd, "trace%d.ndjson" % c)
         out = vlib.run_harness(["record", "c02", tr, str(seed * 1000 + c), str(n // chunks)])
